@@ -7,7 +7,7 @@ set_option maxHeartbeats 8000000 in
 theorem DStop.src (s : Nat) (cl : Client) (rs : DevState) : ∀ a ∈ srcActs s, ∀ st, a.guard st = true → TInv s st cl rs → DUse s st cl →
     DStop s st cl → DStop s (a.upd st) cl := by
   intro a ha st hg ht hu h
-  obtain ⟨k1, k2, k3, k4, k5, k6, k7, k8, k9, k10, k11, k12, k13⟩ := hu
+  obtain ⟨k1, k2, k3, k4, k5, k6, k7, k8, k9, k10, k11, k12, k13, k14⟩ := hu
   obtain ⟨c1, c2, c3, c4, c7, c7a, c8, y, yq, yqs, yqx, yqe, yend⟩ := h
   have tS := ht.start_src; have hs8 := stage_le cl.pc s
   have hwf := cv_wmap_fail st.sinkCh st.F
@@ -28,9 +28,29 @@ theorem DStop.src (s : Nat) (cl : Client) (rs : DevState) : ∀ a ∈ srcActs s,
     constructor
     all_goals (try simp only [hs])
     all_goals (first | assumption | ((try simp only [srcFin, snkErrLate] at *) <;> grind))
+  -- src.abort
+  case inr.inr.inr.inr.inr.inr.inr.inr.inr.inr.inr.inr.inr.inr.inr.inr.inr.inl =>
+    have hsh : srcHold st.src.pc = true := by (have := hg.1; simp_all [srcHold])
+    have hp : (cv st.sinkCh).pending = true := by
+      rcases k7 hsh with h | h
+      · exact h
+      · have := hg.1; rw [h.1] at this; cases this
+    obtain ⟨hok, hcv⟩ := cv_wabort k1 hp
+    constructor
+    all_goals (try simp only [hcv, logpos])
+    all_goals (first | assumption | ((try simp only [srcFin, snkErrLate] at *) <;> grind))
   case inr.inr.inr.inr.inr.inr.inr.inr.inr.inr.inr.inr.inr.inr.inr.inr.inr.inr.inl =>
     have hsh : srcHold st.src.pc = true := by (have := hg.1; simp_all [srcHold])
-    have hp : (cv st.sinkCh).pending = true := k7 hsh
+    by_cases hcn : st.src.cur = none
+    · -- the unmap after an aborted write (empty frame): nothing in flight, nothing changes
+      have hs : (step st.sinkCh Op.wcommit).1 = st.sinkCh := wcommit_idle (k14 hg.1 hcn)
+      constructor
+      all_goals (try simp only [hs, hcn, addFrame, Option.isSome_none, Bool.false_and, Bool.or_false, ite_false, Nat.add_zero, logpos])
+      all_goals (first | assumption | ((try simp only [srcFin, snkErrLate] at *) <;> grind))
+    have hp : (cv st.sinkCh).pending = true := by
+      rcases k7 hsh with h | h
+      · exact h
+      · exact absurd h.2 hcn
     obtain ⟨hok, hcv⟩ := hcm hp
     constructor
     all_goals (try simp only [hcv])
@@ -40,7 +60,7 @@ theorem DStop.src (s : Nat) (cl : Client) (rs : DevState) : ∀ a ∈ srcActs s,
 set_option maxHeartbeats 8000000 in
 theorem DStop.flt (s : Nat) (cl : Client) (rs : DevState) : ∀ a ∈ fltActs, ∀ st, a.guard st = true → TInv s st cl rs → DUse s st cl → DStop s st cl → DStop s (a.upd st) cl := by
   intro a ha st hg ht hu h
-  obtain ⟨k1, k2, k3, k4, k5, k6, k7, k8, k9, k10, k11, k12, k13⟩ := hu
+  obtain ⟨k1, k2, k3, k4, k5, k6, k7, k8, k9, k10, k11, k12, k13, k14⟩ := hu
   obtain ⟨c1, c2, c3, c4, c7, c7a, c8, y, yq, yqs, yqx, yqe, yend⟩ := h
   have tF := ht.start_flt; have hs8 := stage_le cl.pc s
   have hf : (step st.filtCh (.rmap 0)).1 = st.filtCh := filt_rmap k2
@@ -55,7 +75,7 @@ theorem DStop.snk (s : Nat) (cl : Client) (rs : DevState) : ∀ a ∈ snkActs s,
   intro a ha st hg ht hu he h
   have t1 := ht.start_snk; have t3 := ht.joined_snk; have hs8 := stage_le cl.pc s
   have hch := clHolds0_stop cl.pc s
-  obtain ⟨k1, k2, k3, k4, k5, k6, k7, k8, k9, k10, k11, k12, k13⟩ := hu
+  obtain ⟨k1, k2, k3, k4, k5, k6, k7, k8, k9, k10, k11, k12, k13, k14⟩ := hu
   have e8 := he.snk_flush; have e10b := he.drained_pc; have e10a := he.err_disturbed
   obtain ⟨c1, c2, c3, c4, c7, c7a, c8, y, yq, yqs, yqx, yqe, yend⟩ := h
   have hn1 := nrd_pos k3
